@@ -366,7 +366,7 @@ pub fn case_strategy(p: &Params) -> BoxedStrategy<PCase> {
         expiry_sel(pr.expiry),
         size_sel(pr.size_limit),
         proptest::collection::vec(op_strategy(&pr), 1..=max_ops),
-        if matches!(p.property.as_str(), "C14" | "C15") { prop_oneof![3 => Just(0u8), 2 => 1u8..=8].boxed() } else { Just(0u8).boxed() },
+        if matches!(p.property.as_str(), "C14" | "C15" | "C16") { prop_oneof![3 => Just(0u8), 2 => 1u8..=8].boxed() } else { Just(0u8).boxed() },
     )
         .prop_map(|(cfg, partitions, expiry, max_size, ops, sibling_segs)| PCase {
             cfg,
